@@ -196,10 +196,25 @@ def check_anchors(meta, body=False):
     for k, v in exp.items():
         if k.startswith("body:") != body:
             continue
+        if k == "serde_attrs":
+            continue      # reported through serde_attrs_differ(): the safety net and the serde-dependent properties react, not the whole run
         got = meta["anchors"].get(k)
         if got != v:
             lost.append(k)
     return lost
+
+
+def serde_attrs_differ(meta):
+    """the premise of 'derived serde impls are field-wise' (no field-level skip / with / default / rename, same container bounds)"""
+    exp_path = os.path.join(VERIF, "verus", "anchors.json")
+    if not os.path.exists(exp_path):
+        return None
+    exp = json.load(open(exp_path)).get("serde_attrs")
+    got = meta["anchors"].get("serde_attrs", [])
+    if exp is None or exp == got:
+        return None
+    extra = [x for x in got if x not in exp] + ["(removed) " + x for x in exp if x not in got]
+    return "; ".join(extra)[:400] or "order changed"
 
 
 # ------------------------------------------------------------------------------------------ assembly
